@@ -22,19 +22,39 @@ def _worker(args):
     t0 = time.time()
     try:
         import resource      # a change under test that leaks without bound must end in MemoryError, not take the machine down
-        resource.setrlimit(resource.RLIMIT_AS, (8 * 1024 ** 3, 8 * 1024 ** 3))
+        # shard workers need ~0.12 GB; 16 x 3 GB stays below the machine's memory
+        resource.setrlimit(resource.RLIMIT_AS, (3 * 1024 ** 3, 3 * 1024 ** 3))
     except Exception:
         pass
+    core.hold_reserve()
+    mod = None
     try:
         mod = importlib.import_module(modname)
         acc = mod.run_shard(spec, seed, tier)
         if not isinstance(acc, core.Acc):
             raise core.HarnessError('run_shard returned %r' % type(acc))
+    except MemoryError as e:
+        core.release_reserve()
+        acc = core.Acc()
+        bucket = getattr(mod, 'MEMORY_BUCKET', None)
+        if bucket:       # the property of this check forbids unbounded growth across calls: running out of memory is a finding
+            acc.fail(bucket, {'replay_shard': spec, 'seed': seed, 'tier': tier},
+                     'the shard ran out of its 3 GiB address space (workers normally need ~0.12 GiB)')
+        else:
+            acc.harness_errors.append('shard %r: MemoryError' % (spec,))
     except BaseException as e:  # harness fault
         acc = core.Acc()
-        acc.harness_errors.append('shard %r: %s' % (spec, ''.join(traceback.format_exception(type(e), e, e.__traceback__))[-3000:]))
+        txt = ''.join(traceback.format_exception(type(e), e, e.__traceback__))
+        acc.harness_errors.append('shard %r: %s' % (spec, txt if len(txt) < 6000 else txt[:3000] + '\n[...]\n' + txt[-3000:]))
     acc.extra.setdefault('shard_wall_s', {})[json.dumps(spec, default=str)[:80]] = round(time.time() - t0, 2)
-    return acc
+    # the result is pickled here, not by the pool, so that a worker whose address space the code under test has used up
+    # can still hand over what it found
+    import pickle
+    try:
+        return pickle.dumps(acc)
+    except MemoryError:
+        core.release_reserve()
+        return pickle.dumps(acc)
 
 
 def _corpus_shard(mod, pid):
@@ -110,8 +130,9 @@ def main(argv=None):
         ctx = multiprocessing.get_context('spawn')
         pool = ctx.Pool(min(a.jobs, len(tasks)), maxtasksperchild=1)
         results = pool.imap_unordered(_worker, tasks, chunksize=1)
-    for acc in results:
-        total.merge(acc)
+    import pickle
+    for blob in results:
+        total.merge(pickle.loads(blob))
     if a.jobs > 1 and len(tasks) > 1:
         pool.close()
         pool.join()
